@@ -143,20 +143,29 @@ static std::string layout(const std::vector<Lex>& v, int mode, Rng* r) {
 }
 
 // small valid programs (printed output makes the compiled behaviour observable)
-static std::string gen_expr(Rng& r, int d) {
+static std::string gen_arith(Rng& r, int d) {
   if (d <= 0 || r.chance(0.3)) {
-    switch (r.below(6)) {
-    case 0: return gen_digits(r, r.range(1, 12)).insert(0, "1");
-    case 1: return "0x" + gen_digits(r, r.range(1, 8));
+    switch (r.below(5)) {
+    // small enough that depth-2 products stay inside int64 (arithmetic on the edges belongs to C03, not claimed)
+    case 0: return gen_digits(r, r.range(1, 3)).insert(0, "1");
+    case 1: return "0x" + gen_digits(r, r.range(1, 3));
     case 2: return gen_digits(r, r.range(1, 5)).insert(0, "1") + "." + gen_digits(r, r.range(1, 5)) + "5";
     case 3: return "1" + gen_digits(r, r.range(0, 2)) + (r.chance(0.5) ? "e" : "E") + (r.chance(0.5) ? "+" : "-") + gen_digits(r, 1);
     default: return std::string("v") + (char)('a' + r.below(4));
     }
   }
-  static const char* ops[] = {"+", "-", "*", "**", "<<", ">>", "==", "<=", ">=", "!=", "<>", "<", ">"};
-  std::string a = gen_expr(r, d - 1), b = gen_expr(r, d - 1); const char* op = ops[r.below(13)];
-  if (std::string(op) == "**") b = "2"; if (std::string(op) == "<<" || std::string(op) == ">>") { a = "17"; b = "3"; }
+  static const char* ops[] = {"+", "-", "*", "**"};
+  std::string a = gen_arith(r, d - 1), b = gen_arith(r, d - 1); const char* op = ops[r.below(4)];
+  if (std::string(op) == "**") { a = gen_digits(r, 1).insert(0, "1"); b = "2"; }
   return "(" + a + " " + op + " " + b + ")";
+}
+// a well typed expression: arithmetic, or one relational / shift operator on top of arithmetic
+static std::string gen_expr(Rng& r, int d) {
+  switch (r.below(4)) {
+  case 0: { static const char* rel[] = {"==", "<=", ">=", "!=", "<>", "<", ">"}; return "(" + gen_arith(r, d - 1) + " " + rel[r.below(7)] + " " + gen_arith(r, d - 1) + ")"; }
+  case 1: return std::string("(17 ") + (r.chance(0.5) ? "<<" : ">>") + " 3)";
+  default: return gen_arith(r, d);
+  }
 }
 static std::vector<Lex> gen_program(Rng& r) {
   std::vector<Lex> v; auto add = [&](const std::string& t, bool le = false, bool bol = false) { v.push_back({t, le, bol, false}); };
@@ -208,7 +217,14 @@ struct C13 : Profile {
     std::vector<Lex> lx; bool program = false;
     if (kind == 1 || (kind == 3 && g.chance(0.6))) { lx = gen_program(g); program = true; }
     else lx = gen_soup(g, g.range(5, kind == 2 ? 400 : 120));
-    if (kind == 2) {
+    bool padded = kind == 2 || (kind == 3 && g.chance(0.5));
+    if (padded && program) {
+      // many short statements in front, so that everything printed on one line crosses several 1023-byte edges
+      std::vector<Lex> pad; size_t target = 1023 * g.range(1, 3) - g.range(0, 12);
+      while (layout(pad, 1, nullptr).size() + 8 < target) pad.push_back({std::string("v") + (char)('a' + g.below(4)) + " = " + gen_digits(g, g.range(1, 9)).insert(0, "1") + ";", false, false, false});
+      for (auto& l : lx) pad.push_back(l);
+      lx = pad;
+    } else if (padded) {
       // pad with neutral lexemes so that a hot lexeme lands near 1023*m
       std::vector<Lex> pad; size_t target = 1023 * g.range(1, 3) - g.range(0, 12); std::string cur;
       while (layout(pad, 1, nullptr).size() + 8 < target) pad.push_back({gen_ident(g), false, false, false});
@@ -217,7 +233,7 @@ struct C13 : Profile {
     }
     Rng r(seed);
     std::string shortl = layout(lx, 0, nullptr);
-    int mode = (kind == 2) ? 1 : (int)g.below(3);
+    int mode = padded ? 1 : (int)g.below(3);
     Rng lr(subseed(vseed, "C13/layout", group));
     std::string text = layout(lx, mode, &lr);
     plan["kind"] = program ? "program" : "tokens";
